@@ -627,13 +627,16 @@ func (c *ctx) decorate(o *spec.Spec) {
 			}
 			return out
 		}
-		if c.o.Presence && len(names) > 1 && !p.Required {
-			switch rapid.IntRange(0, 5).Draw(c.t, "presenceRule") {
-			case 0:
+		if c.o.Presence && len(names) > 1 {
+			// the three kinds of rule are independent: a property may carry any combination of them (and be
+			// required as well, which makes the required-if rules redundant but still legal)
+			if rapid.IntRange(0, 4).Draw(c.t, "hasRequiredIf") == 0 {
 				p.RequiredIf = others("requiredIf")
-			case 1:
+			}
+			if rapid.IntRange(0, 4).Draw(c.t, "hasRequiredIfNot") == 0 {
 				p.RequiredIfNot = others("requiredIfNot")
-			case 2:
+			}
+			if rapid.IntRange(0, 4).Draw(c.t, "hasConflicts") == 0 {
 				p.Conflicts = others("conflicts")
 			}
 		}
